@@ -35,6 +35,8 @@ MUTANTS = [
  ('C01', 'back/favor_compile_time.hpp', r'self->entries\[state_id\+1\]\.one_state\.push_front\(&Transition::execute\);', 'self->entries[state_id+1].one_state.push_back(&Transition::execute);', 'dispatch_table.construct', ''),
  ('C07', 'back/favor_compile_time.hpp', r'tofill\[state_id\+1\]\.one_state\.push_front\(call_no_transition\);', 'tofill[state_id+1].one_state.push_back(call_no_transition);', 'dispatch_table.construct', ''),
  ('C18', 'back/favor_compile_time.hpp', r'res = self->process_event_internal\(', 'self->process_event_internal(', 'process_any_event_helper', ''),
+ ('C04', 'backmp11/detail/state_machine_base.hpp', r'if \(get_event_pool\(\).events.empty\(\) \|\| m_event_processing\)', 'if (get_event_pool().events.empty())', 'backmp11.process_event_pool', ''),
+ ('C03', 'backmp11/detail/state_machine_base.hpp', r'on_exit\(final_event, get_fsm_argument\(\)\);\s*m_running = false;', 'on_exit(final_event, get_fsm_argument());', 'backmp11.stop', ''),
 ]
 
 # harmless edits (renamed local, reordered independent statements, loop style, added comment): every check of the named properties must
